@@ -29,11 +29,12 @@ Setup == Is("setup") /\ Verdict /\ tid' = Ev.tid /\ status' = "ok" /\ st' = Empt
 Eof == Is("eof") /\ Verdict /\ UNCHANGED <<tid, status, st>>
 TAppend  == Is("append") /\ Step("append", Append_(st, Ev.k, Ev.ages))
 TKill    == Is("kill") /\ Step("kill", IF Ev.i + 1 \in 1..Len_(st) THEN Kill_(st, Ev.i + 1) ELSE st)
+TKillMany == Is("killmany") /\ Step("kill", KillMany_(st, { Ev.is[k] + 1 : k \in 1..Len(Ev.is) } \cap (1..Len_(st))))
 TCompact == Is("compactify") /\ Step("compactify", Compactify_(st))
 TIncAge  == Is("incage") /\ Step("incage", IncAge_(st))
 TCopy    == Is("copyage") /\ Step("copyage", CopyAge_(st))
 TBump    == Is("bump") /\ Step("bump", IF Ev.i + 1 \in 1..Len_(st) THEN Bump_(st, Ev.i + 1) ELSE st)
-Next == TCopy \/ TBump \/ Setup \/ Eof \/ TAppend \/ TKill \/ TCompact \/ TIncAge
+Next == TKillMany \/ TCopy \/ TBump \/ Setup \/ Eof \/ TAppend \/ TKill \/ TCompact \/ TIncAge
 Spec == Init /\ [][Next]_vars
 Accepted == TLCGet("stats").diameter - 1 = Len(Tr)
 =============================================================================
